@@ -45,9 +45,9 @@ def plan(tier, seed):
         specs.append({"name": f"reinsert-exh{n}", "mode": "rexh", "n": n, "seed": seed})
     nr = 6 if tier == "quick" else 12
     for j in range(nr):
-        specs.append({"name": f"reinsert-rand{j}", "mode": "rrand", "j": j, "seed": seed, "cases": 1000 if tier == "quick" else 5000})
+        specs.append({"name": f"reinsert-rand{j}", "mode": "rrand", "j": j, "seed": seed, "cases": 1000 if tier == "quick" else 25000})
     for j in range(8 if tier == "quick" else 16):
-        specs.append({"name": f"search{j}", "mode": "search", "j": j, "seed": seed, "cases": 300 if tier == "quick" else 1200})
+        specs.append({"name": f"search{j}", "mode": "search", "j": j, "seed": seed, "cases": 300 if tier == "quick" else 5000})
     return specs
 
 
